@@ -28,7 +28,7 @@ Pre(i, k)  == IF k = 1 THEN [data |-> <<>>, flag |-> FALSE,
               ELSE T(i).events[k - 1]
 
 (* ---------------- per-table clauses (C03, C04, C05, C17 binding) -------- *)
-TableFails(tb, idv, d, prm, nrep, full) ==
+TableFails(tb, idv, d, prm, nrep, full, coded) ==        \* coded: the scene is in the range [0, 100000) ft for which codes are defined
   LET R == Idx(tb) IN
   Chk("C03_Count",  \A r \in R : C03_Count(tb[r], d, idv)) \cup
   Chk("C03_Perc",   \A r \in R : C03_Perc(tb[r], d)) \cup
@@ -42,8 +42,7 @@ TableFails(tb, idv, d, prm, nrep, full) ==
   Chk("C04_Mean",   \A r \in R : C04_Mean(tb[r], d, idv)) \cup
   Chk("C04_Std",    \A r \in R : C04_Std(tb[r], d, idv)) \cup
   (IF full THEN Chk("C04_Fluff", \A r \in R : C04_Fluff(tb[r])) ELSE {}) \cup
-  Chk("C04_Digits", \A r \in R : C04_Digits(tb[r])) \cup
-  Chk("C04_NeverUp", \A r \in R : C04_NeverUp(tb[r])) \cup
+  (IF coded THEN Chk("C04_Digits", \A r \in R : C04_Digits(tb[r])) \cup Chk("C04_NeverUp", \A r \in R : C04_NeverUp(tb[r])) ELSE {}) \cup
   Chk("C04_Sorted", C04_Sorted(tb)) \cup
   Chk("C05_TableMatchesIds", C05_TableMatchesIds(tb, idv, nrep)) \cup
   Chk("C05_PartitionOne", C05_PartitionOne(d, idv)) \cup
@@ -165,7 +164,7 @@ LayerMarks(ev, post, prm) ==
 MsgFails(ev, post, tr) ==
   LET m == ev.msg  tb == post.tbl[ev.arg]  prm == tr.prm
       high == prm.hasmsa /\ NAbove(tr.raw, prm) > prm.h0 IN
-  Chk("C01_Grammar", C01_Grammar(m)) \cup
+  Chk("C01_Grammar", ~tr.desc.grammar \/ C01_Grammar(m)) \cup
   Chk("C01_Order", C01_Order(m)) \cup
   Chk("C01_SecondSCT", C01_SecondSCT(m)) \cup
   Chk("C01_ThirdBKN", C01_ThirdBKN(m)) \cup
@@ -237,7 +236,7 @@ StageFails(ev, tr, s1) ==
 EventFails(i, k) ==
   LET tr == T(i)  ev == tr.events[k]  pre == Pre(i, k)  post == ev  prm == tr.prm
       tabs == UNION { IF post.hast[w] /\ post.has[F(w)] /\ ev.tchg[w]
-                      THEN TableFails(post.tbl[w], post.ids[F(w)], post.data, prm, post.nrep[w], TRUE)
+                      THEN TableFails(post.tbl[w], post.ids[F(w)], post.data, prm, post.nrep[w], TRUE, tr.desc.grammar)
                       ELSE {} : w \in W }
   IN IF ev.res = "exc" THEN ExcFails(ev, pre, post, tr)
      ELSE IF tr.light THEN (IF ev.op = "metar_msg" THEN Chk("C01_Grammar", ~tr.desc.grammar \/ C01_Grammar(ev.msg)) \cup Chk("C08_ReturnsString", ev.hasmsg) ELSE {})
